@@ -14,7 +14,7 @@ from __future__ import annotations
 
 import random
 
-from hv.scenarios.base import T, seed_all, stats_of, sub_seed
+from hv.scenarios.base import LOSSY_MS, T, dur_ms, seed_all, stats_of, sub_seed
 
 NAME = "industrial"
 MODEL = None
@@ -27,23 +27,41 @@ COMPONENTS = ["BalkingQueue", "RenegingQueuedResource", "ConveyorBelt", "Inspect
 LAYOUTS = ["line", "service", "supply", "all"]
 
 
+def _instants(rng, lo_ms, hi_ms, n):
+    """n distinct absolute instants (ms) in [lo, hi), sorted: a 10 ms grid mixed with values that lose a nanosecond in
+    `Instant.from_seconds` (1001, 1003, ..., 2050, ...) and values with sub-millisecond digits"""
+    pool = set(rng.sample(range(int(lo_ms), int(hi_ms), 10), min(2 * n + 2, (int(hi_ms) - int(lo_ms)) // 10)))
+    lossy = [m for m in LOSSY_MS if lo_ms <= m < hi_ms]
+    out = set()
+    while len(out) < n:
+        r = rng.random()
+        if r < 0.3 and lossy:
+            out.add(rng.choice(lossy))
+        elif r < 0.45:
+            out.add(round(rng.uniform(lo_ms, hi_ms - 1), rng.choice([1, 2, 3])))
+        else:
+            out.add(pool.pop() if pool else rng.randrange(int(lo_ms), int(hi_ms)))
+    return sorted(out)
+
+
 def _windows(rng, end_ms, n):
     """n disjoint (a, b) ms windows inside (0, end_ms), sorted"""
-    pts = sorted(rng.sample(range(50, int(end_ms) - 50, 10), 2 * n))
+    pts = _instants(rng, 50, int(end_ms) - 50, 2 * n)
     return [[pts[2 * i], pts[2 * i + 1]] for i in range(n)]
 
 
 def gen_cfg(rng):
-    end = rng.choice([2.0, 3.0, 4.0])
+    end = rng.choice([2.0, 3.0, 4.0]) if rng.random() < 0.9 else rng.choice([8.0, 10.0])
     end_ms = end * 1000
     n_shift = rng.randint(2, 4)
-    bounds = sorted(rng.sample(range(100, int(end_ms), 50), n_shift + 1))
+    bounds = _instants(rng, 100, int(end_ms), n_shift + 1)
     shifts = []
     t0 = 0
     for i in range(n_shift + 1):
         shifts.append([t0, bounds[i], rng.choice([0, 1, 1, 2, 3])])
         t0 = bounds[i] + (rng.choice([0, 0, 100]))  # sometimes a gap (default capacity)
-    appts = sorted(rng.choice(range(0, int(end_ms) - 300, 50)) for _ in range(rng.randint(5, 25)))
+    appts = sorted(rng.choice(range(0, int(end_ms) - 300, 50)) if rng.random() < 0.8
+                   else dur_ms(rng, 1, int(end_ms) - 300) for _ in range(rng.randint(5, 25)))
     return {
         "layout": rng.choice(LAYOUTS),
         "end": end,
@@ -54,37 +72,37 @@ def gen_cfg(rng):
         "gate_sched": _windows(rng, end_ms, rng.randint(1, 3)),
         "gate_open0": rng.random() < 0.5,
         "gate_qcap": rng.choice([0, 3, 10]),
-        "belt_ms": rng.randint(1, 60),
+        "belt_ms": dur_ms(rng, 1, 60),
         "belt_cap": rng.choice([0, 1, 2, 2]),
-        "st_ms": rng.randint(2, 30),
+        "st_ms": dur_ms(rng, 2, 30),
         "st_conc": rng.randint(1, 2),
-        "mttf_ms": rng.choice([100, 300, 800, 1500]),
+        "mttf_ms": dur_ms(rng, 50, 1500),
         "broken_mode": rng.choice(["capacity", "poll", "poll", "none"]),
-        "mttr_ms": rng.choice([20, 100, 300]),
-        "insp_ms": rng.randint(0, 20),
-        "pass_rate": rng.choice([0.5, 0.8, 0.95, 1.0]),
+        "mttr_ms": dur_ms(rng, 10, 400),
+        "insp_ms": dur_ms(rng, 1, 20, zero=True),
+        "pass_rate": rng.choice([0.0, 0.5, 0.8, 0.95, 1.0]),
         "rework": rng.random() < 0.6,
         "batch": rng.choice([1, 2, 4, 7]),
-        "batch_ms": rng.randint(0, 50),
-        "batch_to_ms": rng.choice([0, 30, 100, 400]),
+        "batch_ms": dur_ms(rng, 1, 50, zero=True),
+        "batch_to_ms": dur_ms(rng, 5, 1200, zero=True),
         # ---- service
         "s_rate": rng.choice([20, 50, 100, 200]),
         "s_poisson": rng.random() < 0.6,
         "kinds": rng.randint(2, 5),
         "appts_ms": appts,
-        "no_show": rng.choice([0.0, 0.2, 0.5]),
+        "no_show": rng.choice([0.0, 0.2, 0.5, 1.0]),
         "balk_thr": rng.randint(0, 4),
-        "balk_p": rng.choice([0.3, 0.7, 1.0]),
+        "balk_p": rng.choice([0.0, 0.3, 0.7, 1.0]),
         "desk_qcap": rng.choice([None, 3, 8]),
-        "desk_ms": rng.randint(5, 60),
+        "desk_ms": dur_ms(rng, 5, 60),
         "desk_conc": rng.randint(1, 2),
-        "patience_ms": rng.choice([10, 50, 200]),
+        "patience_ms": dur_ms(rng, 1, 1100),
         "own_patience": rng.random() < 0.5,
         "shifts": shifts,
         "shift_default": rng.choice([0, 0, 1]),
-        "shift_ms": rng.randint(5, 50),
+        "shift_ms": dur_ms(rng, 5, 50),
         "pool_n": rng.randint(1, 2),
-        "pool_ms": rng.randint(5, 80),
+        "pool_ms": dur_ms(rng, 5, 80),
         "pool_qcap": rng.choice([0, 2, 5]),
         # ---- supply
         "d_rate": rng.choice([20, 50, 100]),
@@ -93,22 +111,27 @@ def gen_cfg(rng):
         "inv0": rng.randint(0, 30),
         "inv_s": rng.randint(0, 10),
         "inv_q": rng.randint(3, 30),
-        "inv_lead_ms": rng.randint(1, 400),
+        "inv_lead_ms": dur_ms(rng, 1, 1200),
         "per0": rng.randint(0, 30),
-        "per_life_ms": rng.choice([100, 300, 1000]),
-        "per_check_ms": rng.choice([20, 50, 250]),
+        "per_life_ms": dur_ms(rng, 50, 1500),
+        "per_check_ms": dur_ms(rng, 10, 1100),
         "per_s": rng.randint(0, 10),
         "per_q": rng.randint(3, 20),
-        "per_lead_ms": rng.randint(1, 300),
-        "per_t0": rng.choice([None, 0.0]),
+        "per_lead_ms": dur_ms(rng, 1, 1200),
+        "per_t0": rng.choice([None, 0.0, 0.0005]),
         "res_cap": rng.randint(1, 2),
-        "workers": [{"prio": rng.randint(1, 9), "hold_ms": rng.randint(2, 25), "amount": 1}
+        "workers": [{"prio": rng.randint(1, 9), "hold_ms": dur_ms(rng, 2, 25), "amount": 1}
                     for _ in range(rng.randint(2, 4))],
         "retries": rng.randint(0, 2),
         "u_rate": rng.choice([2, 5, 10, 20]),
-        "u_hold_ms": rng.randint(5, 60),
+        "u_hold_ms": dur_ms(rng, 5, 60),
         "u_preempt": rng.random() < 0.8,
         "p_preempt": rng.random() < 0.5,
+        # optional constructor parameters (None = the constructor default)
+        "insp_policy": rng.choice([None, None, "lifo", "fifo-cap"]),
+        "shift_policy": rng.choice([None, None, "lifo", "fifo-cap"]),
+        "inv_supplier": rng.random() < 0.4,
+        "sm_types": rng.choice([None, None, ["Pick", "Assembled"]]),
     }
 
 
@@ -152,6 +175,15 @@ def build(cfg, seed):
                 ctx["patience_s"] = self.rng.choice([1, 5, 20, 100]) / 1000.0
             return [self.forward(event, self.downstream)]
 
+    def opt_policy(kind):
+        from happysimulator.components.queue_policy import LIFOQueue
+
+        if kind == "lifo":
+            return {"policy": LIFOQueue()}
+        if kind == "fifo-cap":
+            return {"policy": FIFOQueue(capacity=3)}
+        return {}
+
     # ------------------------------------------------------------------ line
     def build_line():
         sink = Sink("line-sink")
@@ -192,7 +224,8 @@ def build(cfg, seed):
         rework_belt = ConveyorBelt("belt-rework", station, cfg["belt_ms"] / 1000.0, capacity=0)
         insp = InspectionStation("inspect", pass_target=batcher,
                                  fail_target=rework_belt if cfg["rework"] else scrap,
-                                 inspection_time=cfg["insp_ms"] / 1000.0, pass_rate=cfg["pass_rate"])
+                                 inspection_time=cfg["insp_ms"] / 1000.0, pass_rate=cfg["pass_rate"],
+                                 **opt_policy(cfg.get("insp_policy")))
         station.downstream = insp
         belt = ConveyorBelt("belt-in", station, cfg["belt_ms"] / 1000.0, capacity=cfg["belt_cap"])
         gate = GateController("gate", belt, schedule=[(a / 1000.0, b / 1000.0) for a, b in cfg["gate_sched"]],
@@ -255,7 +288,8 @@ def build(cfg, seed):
         desk = Desk("desk", cfg["desk_ms"] / 1000.0, cfg["desk_conc"], sink, reneged, balking)
         schedule = ShiftSchedule([Shift(a / 1000.0, b / 1000.0, c) for a, b, c in cfg["shifts"] if b > a],
                                  default_capacity=cfg["shift_default"])
-        shifted = ShiftedServer("shifted", schedule, service_time=cfg["shift_ms"] / 1000.0, downstream=sink)
+        shifted = ShiftedServer("shifted", schedule, service_time=cfg["shift_ms"] / 1000.0, downstream=sink,
+                                **opt_policy(cfg.get("shift_policy")))
         pool = PooledCycleResource("washers", pool_size=cfg["pool_n"], cycle_time=cfg["pool_ms"] / 1000.0,
                                    downstream=sink, queue_capacity=cfg["pool_qcap"])
         kinds = [f"k{i}" for i in range(cfg["kinds"])]
@@ -346,10 +380,14 @@ def build(cfg, seed):
         pickers = [Picker(f"picker-{i}", w["prio"], w["hold_ms"] / 1000.0, min(w["amount"], cfg["res_cap"]))
                    for i, w in enumerate(cfg["workers"])]
         urgent = Urgent("urgent")
-        sm = SplitMerge("split", targets=pickers, downstream=sink)
+        smt = cfg.get("sm_types")
+        sm = SplitMerge("split", targets=pickers, downstream=sink,
+                        **({} if smt is None else {"split_event_type": smt[0], "merge_event_type": smt[1]}))
+        supplier = Counter("supplier") if cfg.get("inv_supplier") else None
         inv = InventoryBuffer("inv", initial_stock=cfg["inv0"], reorder_point=cfg["inv_s"],
                               order_quantity=cfg["inv_q"], lead_time=cfg["inv_lead_ms"] / 1000.0,
-                              downstream=sm, stockout_target=misc)
+                              downstream=sm, stockout_target=misc,
+                              **({} if supplier is None else {"supplier": supplier}))
         per = PerishableInventory("fridge", initial_stock=cfg["per0"], shelf_life_s=cfg["per_life_ms"] / 1000.0,
                                   spoilage_check_interval_s=cfg["per_check_ms"] / 1000.0,
                                   reorder_point=cfg["per_s"], order_quantity=cfg["per_q"],
@@ -367,6 +405,9 @@ def build(cfg, seed):
         sources.append(Source.poisson(rate=cfg["u_rate"], target=urgent, event_type="Urgent", name="src-urgent",
                                       stop_after=stop))
         entities.extend([sink, fresh, misc, urgent_done, res, *pickers, urgent, sm, inv, per, router, tagger])
+        if supplier is not None:
+            entities.append(supplier)
+            obs["sup.supplier"] = lambda: {"total": supplier.total, "by_type": supplier.by_type}
         pre.append(lambda: [per.start_event()])
 
         def sink_obs():
